@@ -315,6 +315,7 @@ def run_shard(spec_):
         return {"evaluations": 1, "digests": [], "samples": [], "counters": counters, "violations": violations, "known": []}
     for p in range(spec_["problems"]):
         spec = optmon.gen_problem(rng, families=("lin", "quad", "trig", "trig", "pole", "incons", "rankdef", "bowl", "bowl"))
+        spec["split_actions"] = rng.random() < 0.35       # one action object per target instead of one for all
         if rng.random() < 0.2:
             # limits not policed by the merit function, start point outside the limits of some knobs (what the option is
             # for): row 0 records the point as it was, later rows the clipped ones
